@@ -185,17 +185,18 @@ CHECKS["C06"] = dict(
     technique="Coq proof (write effect and frame theorems over driver, router and client models) + system-level correspondence of the composed model with the real client/transport/router/driver stack",
     design="4/C06")
 CHECKS["C01"] = dict(
-    text="PARTIAL proof + system-level correspondence. Proved (System/Converge.v, Client/Update.v): every definition the driver publishes puts the "
-         "mirror's entry in the state 'shown' of the property as it then is, from any previous state (a_definition_brings_the_entry_in_sync, "
-         "what_the_client_then_shows: name, kind, group, label, state, enabled elements with labels and wire values); a disabled property's "
-         "delProperty removes it; an update from the in-sync state of a property that changed in state and values only leads to the in-sync state "
-         "(an_update_keeps_the_entry_in_sync); no message touches another entry; the handshake answer covers every property. REFUTED for BLOB "
-         "payloads (definition carries none: known finding K2). The composition over whole histories - that a connected client receives exactly "
-         "the published stream, through router, serializer, fragmented byte stream and framing, for generated definitions incl. inheritance - is "
-         "the system model (System/Model.v), VALIDATED by running the real stack and comparing every device state and every client view after "
-         "every operation, plus a model-free oracle (client view = device's visible state).",
-    note=NOTE_BASE + "Partial: the whole-history composition is validated by correspondence, not proved as one theorem. Known findings K2 (BLOB payload after a definition) and K1-C01 (messages above the 2048-character threshold).",
-    technique="Coq proof (message-level sync theorems, partial) + system-level correspondence of the composed model with the real driver/router/transport/client stack",
+    text="Proof (System/Converge.v, System/Ops.v, Client/Update.v) + system-level correspondence. Proved: the handshake answer brings a mirror that "
+         "knows nothing of the device in sync (the_handshake_brings_a_fresh_mirror_in_sync); EVERY driver-side operation of the property's list "
+         "(assign, set_value, selected values, state, enabling a property or a group) and every client write, on ANY device definition without "
+         "event handlers, publishes a stream that takes a mirror in sync with the device before to a mirror in sync with the device after "
+         "(every_operation_keeps_the_mirror_in_sync), hence every history does (every_history_keeps_the_mirror_in_sync); in sync = per property "
+         "name, the entry is what a definition of the property as it now is creates (name, kind, group, label, state, enabled elements with "
+         "labels and wire values), absent when not exposed, and no other entries (what_in_sync_means). PARTIAL in one respect: that a connected "
+         "client receives exactly the published stream through router, serializer, fragmented byte stream and framing is composed in the system "
+         "model (System/Model.v) and VALIDATED by running the real stack (every device state and every client view after every operation, "
+         "generated definitions incl. inheritance) plus a model-free oracle, not proved as one theorem. REFUTED for BLOB payloads (known finding K2).",
+    note=NOTE_BASE + "Partial: the delivery of the published stream to the client is validated by correspondence, not proved as one theorem. Known findings K2 (BLOB payload after a definition) and K1-C01 (messages above the 2048-character threshold).",
+    technique="Coq proof (handshake, every operation and every history keep the mirror in sync, for every handler-free device definition) + system-level correspondence of the composed model with the real driver/router/transport/client stack",
     design="4/C01")
 CHECKS["C08"] = dict(
     text="Theorems: payload_survives_the_text_encoding (base64, every byte string), published_blob_is_received_identically (client-side decode and "
